@@ -220,7 +220,10 @@ func drawConfig(c *kernel.Ctx, mode Mode) Config {
 	if thorough {
 		stallOdds = 12
 	}
-	if (mode != ModeHostile || thorough) && t.Int(stallOdds) == 0 {
+	if mode == ModeHostile && !thorough {
+		stallOdds = 40 // a long stall costs ~20x an ordinary hostile run
+	}
+	if t.Int(stallOdds) == 0 {
 		cfg.LongStall = time.Duration(t.Range(15*60+20, 17*60)) * time.Second
 		cfg.GST = cfg.LongStall + time.Duration(t.Range(2, 20))*time.Second
 		cfg.Horizon = cfg.GST + 8*time.Minute
